@@ -45,12 +45,15 @@ CHECK = {
         suite("val", "c02", 3000, 60000, stdin=True, args=["-suite", "val"], timeout={"quick": 300, "thorough": 900}),
     ],
     "gen": [{"pkg": "extract_c02", "out": "lean/ClusterVerif/Gen/C02.lean"}],
-    "lean_sources": ["ClusterVerif/Model/C02Source.lean", "ClusterVerif/Gen/C02.lean", "ClusterVerif/Model/C02.lean", "ClusterVerif/Spec/C02.lean", "ClusterVerif/Lemmas/C02.lean", "ClusterVerif/Lemmas/C02Compose.lean"],
+    "lean_sources": ["ClusterVerif/Model/C02Source.lean", "ClusterVerif/Gen/C02.lean", "ClusterVerif/Model/C02.lean", "ClusterVerif/Spec/C02.lean", "ClusterVerif/Lemmas/C02.lean", "ClusterVerif/Lemmas/C02Compose.lean", "ClusterVerif/Model/C02Ctx.lean", "ClusterVerif/Lemmas/C02Ctx.lean"],
     "rule": "set: 2-3 real go-ds-crdt replicas, 2-12 puts/deletes/batches over 1-3 keys, scripted deliveries (old, repeated, newest-first), "
             "final full exchange; thorough: every third case delivers a <=5-delta history to a third replica in the k-th of all permutations. "
             "batch: one real crdt.Consensus, batching off / size 1,2,3,5 / age 60ms, queue 50 or size..size+2, bursts against a worker held inside "
             "Commit, any number of injected datastore write failures (DAG node / tombstone batch / element batch / head; one per publish attempt, 1-3 per "
-            "failure script, several scripts per case); age mode is run in the model under the observed batch boundaries. comp: real crdt.Consensus A "
+            "failure script, several scripts per case); age mode is run in the model under the observed batch boundaries; half of the cases submit "
+            "operations with a request-scoped context cancelled as soon as LogPin/LogUnpin returned (also while the worker is held inside Commit), with "
+            "a context that is already done, or with one whose deadline passes right after the call (cP/kP/xP steps). comp: every operation of A is "
+            "submitted with a request-scoped context cancelled after the call; real crdt.Consensus A "
             "(batching off / size 1,2,3) + real peer B (batching off) whose operations are merged at A between scripted steps of A's worker, also while a "
             "batch is open, 0-2 failed publish attempts; every delta (elements, tombstones, priority), hook call and view compared. val: the real topic "
             "validator closure called in-process with every (signer, forwarder) pair over 2-6 peers after random Trust/Distrust histories. net: 2-3 real peers over "
@@ -66,7 +69,8 @@ CHECK = {
     "extra": [_rerun_before_report],
     "assumptions": ["value convergence is claimed under (H1) no delta puts a key twice and (H2) the greatest (priority,value) of a member key "
                     "belongs to a never-tombstoned element; outside them go-ds-crdt v0.1.21 diverges (K05, K05b) - proved and replayed",
-                    "order per CID excludes a publish that fails at the head write after the merge landed (K05d) and failed batchingState.Add/Rm",
+                    "order per CID excludes a publish that fails at the head write after the merge landed (K05d) and failed batchingState.Add/Rm "
+                    "(proved impossible through the caller's context as the state layer is: ctx_irrelevant_as_is + regenerated context uses)",
                     "net suite: inside a phase a CID is written by one replica; the peer trusted by nobody writes its own CIDs"],
 }
 META = {
@@ -84,8 +88,15 @@ META = {
             "at strictly increasing priorities; a remote merge leaves the pending batch untouched and only raises the priority the next commit reads; two "
             "composed replicas that received each other's stream hold the same CIDs (and contents under H1/H2); the tracker calls are a function of the "
             "batch boundaries while the committed pinset is not; the state is a function of what trusted signers authored. Tied by the comp suite (real "
-            "Consensus + second real peer, scripted deliveries) and the val suite (real validator closure, thousands of in-process cases).",
+            "Consensus + second real peer, scripted deliveries) and the val suite (real validator closure, thousands of in-process cases). "
+            "Round 8: the caller's context. LogPin/LogUnpin store the caller's context in the queued item and the worker hands it to the state layer "
+            "later; the model now carries a context per accepted operation that may be cancelled at any point of the schedule. Proved: with the state "
+            "layer as it is (regenerated from state/dsstate/datastore.go by a go/ast translator: no use of the context other than the trace span) every "
+            "run with contexts equals the run with them erased, so an accepted operation is committed whatever happens to the caller's context "
+            "afterwards and the worker never reaches the nil-delta publish; for a state layer that returns ctx.Err() the statement is refuted (accepted "
+            "pin dropped; a dropped first item crashes the worker at the age commit). The batch and comp suites submit operations with request-scoped, "
+            "already-done and expiring contexts against the real Consensus and compare the committed pinset and tracker calls.",
     "note": "Trusted: Lean kernel, hand-written model/spec, harness (datastore wrapper, broadcaster, value numbering), pubsub in the net suite. "
             "Known findings K05/K05b/K05c/K05d are dependency defects (go-ds-crdt v0.1.21), each with a proved witness and a narrow signature.",
-    "technique": "regenerated source text of the anchored functions checked against the transcribed snapshot (rfl) + Lean 4 theorems over a replicated-set model and a batching-worker step model + differential correspondence on real go-ds-crdt replicas and a real crdt.Consensus",
+    "technique": "go/ast translator of the context uses of the state layer and of the worker's context wiring related to the model by decide/rfl + regenerated source text of the anchored functions checked against the transcribed snapshot (rfl) + Lean 4 theorems over a replicated-set model and a batching-worker step model + differential correspondence on real go-ds-crdt replicas and a real crdt.Consensus",
 }
